@@ -121,6 +121,19 @@ def run(ctx: Context) -> None:
         ws = [c for c in own_nodes(wo.node) if isinstance(c, ast.Call) and norm(c.func) == "self._network_stream.write"]
         src = [norm(a) for a in ctx.prov.expand(ws[0].args[0], wo, ws[0], depth=1)] if ws else []
         rep.ob("C03.R5", fkey(tree, wo, "flush"), len(ws) == 1 and src == ["self._h2_state.data_to_send()"], where(wo), f"flushed bytes <- {src}")
+        if tree == "async" and ws:
+            # draining h2's buffer commits the HPACK encoder state: the drained bytes must not be droppable by a cancellation
+            cfgw = ctx.cfg(wo)
+            dn = [n for n in cfgw.nodes if node_calls(n, lambda x: norm(x.func) == "self._h2_state.data_to_send")]
+            wn = [n for n in cfgw.nodes if node_calls(n, lambda x: norm(x.func) == "self._network_stream.write")]
+            between = []
+            if dn and wn:
+                r = cfgw.reachable([e.dst for e in dn[0].succ if e.kind != "exc"], follow=lambda e: e.kind != "exc", stop=lambda n: n is wn[0])
+                between = [n for n in cfgw.nodes if n.id in r and n is not wn[0] and n.may_cancel()]
+            rep.ob("C03.R5", fkey(tree, wo, "drain-to-write-atomic"), bool(dn) and bool(wn) and not between, where(wo, dn[0].ast if dn else None),
+                   "no cancellation point between draining h2's output buffer and writing it" if not between else
+                   f"cancellation point `{between[0].text()}` lies between data_to_send() and the write: a request cancelled there drops frames the HPACK encoder has already accounted for - "
+                   "every later header block on the connection decodes to different headers at the server")
     # R6 (shared)
     inc = ctx.prog.func("httpcore._models", "include_request_headers")
     hs = [n for n in own_nodes(inc.node) if isinstance(n, ast.Assign) and norm(n.targets[0]) == "headers_set"]
